@@ -349,9 +349,13 @@ def fm_check(case):
     conv, exc = call(g.to_nonlocal_game)
     if exc is not None:
         return viol("to_nonlocal_game raised: " + exc_text(exc), site="to_nonlocal_game:exception", nontrivial=nontrivial)
-    for name, fn, args in (("quantum", g.quantum_value, ()), ("npa1", conv.commuting_measurement_value_upper_bound, (1,)),
+    # ONE converted game object answers every query, the classical value first and once more at the end: a value method that
+    # alters the object it is called on shows up in the later answers (added after seeded change C08-3)
+    conv_snaps = snap(np.array(conv.prob_mat), np.array(conv.pred_mat))
+    for name, fn, args in (("cl_conv", conv.classical_value, ()), ("quantum", g.quantum_value, ()),
+                           ("npa1", conv.commuting_measurement_value_upper_bound, (1,)),
                            ("ns_xor", g.nonsignaling_value, ()), ("ns_conv", conv.nonsignaling_value, ()),
-                           ("cl_xor", g.classical_value, ()), ("cl_conv", conv.classical_value, ())):
+                           ("cl_xor", g.classical_value, ()), ("cl_conv2", conv.classical_value, ())):
         v, exc = call(fn, *args)
         if exc is not None:
             if is_solver_failure(exc):
@@ -360,6 +364,9 @@ def fm_check(case):
         if v is None or not math.isfinite(float(v)):
             return indet(f"{name} returned {v}")
         vals[name] = float(v)
+    if not unchanged(conv_snaps, np.array(conv.prob_mat), np.array(conv.pred_mat)) or abs(vals["cl_conv2"] - vals["cl_conv"]) > ALG:
+        return viol("the converted game object changed while its values were computed (second classical value differs / arrays modified)",
+                    site="converted_game:mutated", observed=[vals["cl_conv"], vals["cl_conv2"]], nontrivial=nontrivial)
     if not (lo - SCS <= vals["quantum"] <= hi + SCS):
         return viol("quantum value outside the certified bracket", site="quantum_value:bracket", observed=vals["quantum"],
                     expected=[lo, hi], nontrivial=nontrivial)
